@@ -157,6 +157,8 @@ def check(pm: ProgramModel, ctx: Ctx) -> None:
                        f"denote the same configurations")
         from ..codec import WriterOnly, writer_reuse_check
         writer_reuse_check(WriterOnly(pm, ctx, writer, P), mb, "REUSE", op="REQUIRES", abstract=False)
+        from ..codec import writer_failed_then_reused
+        writer_failed_then_reused(WriterOnly(pm, ctx, writer, P), mb, "REUSE", op="REQUIRES", abstract=False)
         from ..codec import export_models
         for key_, m_, what_ in export_models(mb, [op_ for op_ in BINARY_LOGICAL if op_ not in ("XOR", "EQUIVALENCE")]):
             validate(ctx, pm, writer, f"{P}-COVER" if not m_._f["ctcs"] else f"{P}-CTC", f"large:{key_}", m_, what_)
